@@ -1409,6 +1409,10 @@ func nullableRules(r *Run, p *Prog, m *idlModel, root string) {
 					// the field comes from a range over Y.Fields: Y.Kind == struct known, or Y is a method's in/out (domain), or Y is a normalised error type
 					owner := fieldsOwner(T, fa.X)
 					switch {
+					case ownerAlternativesTyped(T, m, fieldsOwnerValue(fa.X), kindFact):
+						// Y is one of several values (`errType := errorType(e)`): a fresh node without fields, or a
+						// node that is a struct on the path it comes from
+						ok2, how = true, "every alternative of the enclosing type is a fresh node without fields or a struct"
 					case owner != "" && kindFact(fs, owner, "TypeStruct"):
 						ok2, how = true, "enclosing kind is struct (typed fields only)"
 					case strings.HasSuffix(owner, ".In") || strings.HasSuffix(owner, ".Out"):
@@ -1515,6 +1519,55 @@ func tableKindFact(p *Prog, m *idlModel, b *ssa.BasicBlock, holder ssa.Value, ki
 	return false
 }
 
+// fieldsOwnerValue: for a TypeField value (or its address) obtained by indexing <owner>.Fields, the SSA value of <owner>.
+func fieldsOwnerValue(v ssa.Value) ssa.Value {
+	for i := 0; i < 6; i++ {
+		switch x := v.(type) {
+		case *ssa.Alloc:
+			val, ok := singleStore(x)
+			if !ok {
+				return nil
+			}
+			v = val
+		case *ssa.UnOp:
+			if fa, ok := x.X.(*ssa.FieldAddr); ok && fieldName(fa.X, fa.Field) == "Fields" {
+				return fa.X
+			}
+			v = x.X
+		case *ssa.IndexAddr:
+			v = x.X
+		case *ssa.Index:
+			v = x.X
+		default:
+			return nil
+		}
+	}
+	return nil
+}
+
+// ownerAlternativesTyped: owner is a phi each of whose alternatives is a node built right there without a field list
+// (nothing to iterate over) or a value known to be of kind struct on the edge it arrives by.
+func ownerAlternativesTyped(T *Terms, m *idlModel, owner ssa.Value, kindFact func([]Fact, string, ...string) bool) bool {
+	ph, ok := owner.(*ssa.Phi)
+	if !ok || len(ph.Edges) == 0 {
+		return false
+	}
+	for i, e := range ph.Edges {
+		if al, isAlloc := e.(*ssa.Alloc); isAlloc {
+			if len(fieldStores(al)["Fields"]) == 0 {
+				continue
+			}
+			return false
+		}
+		pred := ph.Block().Preds[i]
+		fs := append(append([]Fact{}, T.FactsAt(pred)...), T.edgeFactsOn(pred, ph.Block())...)
+		if !kindFact(fs, strip(T.T(e)), "TypeStruct") {
+			return false
+		}
+	}
+	return true
+}
+
 // fieldsOwner: for a TypeField value obtained by indexing <owner>.Fields, the term of <owner>.
 func fieldsOwner(T *Terms, v ssa.Value) string {
 	// a range variable is a local copy of &<owner>.Fields[i]
@@ -1525,14 +1578,27 @@ func fieldsOwner(T *Terms, v ssa.Value) string {
 			}
 		}
 	}
+	if o := fieldsOwnerValue(v); o != nil {
+		return strip(T.T(o))
+	}
 	t := strip(T.T(v))
 	// &index(<owner>.Fields, i) / alloc of range var copy
 	if i := strings.Index(t, ".Fields"); i >= 0 {
 		s := t[:i]
-		if j := strings.LastIndex(s, "("); j >= 0 {
-			s = s[j+1:]
+		// the owner starts after the last parenthesis still open at this point
+		depth, start := 0, 0
+		for j := len(s) - 1; j >= 0; j-- {
+			if s[j] == ')' {
+				depth++
+			} else if s[j] == '(' {
+				if depth == 0 {
+					start = j + 1
+					break
+				}
+				depth--
+			}
 		}
-		return strings.TrimPrefix(s, "&")
+		return strings.TrimPrefix(s[start:], "&")
 	}
 	return ""
 }
